@@ -128,6 +128,13 @@ func (x *c02Exec) sampleGo(u int) {
 			r.foreign++
 			continue
 		}
+		// attribution: the monitor of the entry is finished, reports the same error object, and its
+		// event path is the chain of plan events from the unit's root to this event
+		// (monitorBase.Errors / EventPath / EventPathString / TaskError.Error are asserting
+		// accessors: legal here, after the wait returned)
+		path := c02PlanPath(x.plan, un, node)
+		attributed := te.Monitor != nil && te.Monitor.Errors() == te && te.Monitor.IsActivated() &&
+			te.Monitor.EventPathString() == path && strings.Contains(te.Error(), path+" -> ")
 		for rule, err := range te.ErrorMap {
 			k := -1
 			if strings.HasPrefix(rule, evn+"r") {
@@ -136,12 +143,27 @@ func (x *c02Exec) sampleGo(u int) {
 			cl := "?"
 			if err != nil && err.Error() == "E"+rule {
 				cl = "e"
+				if !attributed {
+					cl = "?path"
+				}
 			}
 			es = append(es, c02Ent{node, k, cl})
 		}
 	}
 	r.errs = c02SortEnts(es)
 	r.sampled = true
+}
+
+// c02PlanPath: "c0n0 -> c0n3 -> c0n7", the events from the root of the unit down to node.
+func c02PlanPath(plan *c02Plan, un c02Unit, node int) string {
+	var names []string
+	for n := node; ; n = plan.cascs[un.ci].nodes[n].parent {
+		names = append([]string{fmt.Sprintf("c%dn%d", un.ci, n)}, names...)
+		if n == un.root || plan.cascs[un.ci].nodes[n].parent < 0 {
+			break
+		}
+	}
+	return strings.Join(names, " -> ")
 }
 
 func c02SortEnts(es []c02Ent) []string {
